@@ -11,7 +11,7 @@ for d in mutants/*.diff; do
   if git -C "$W/wt" apply "$V/$d" 2>/dev/null; then
     for c in $targets; do
       [ "$c" = "-" ] && { echo "$name - (no property targeted; expected to survive)"; continue; }
-      out=$(VERIF_REPO="$W/wt" bin/check $c --tier quick 2>&1); ec=$?
+      out=$(VERIF_OUT="$W/vout" VERIF_REPO="$W/wt" bin/check $c --tier quick 2>&1); ec=$?
       sig=$(echo "$out" | grep -E "^C[0-9]+/" | head -1 | cut -c1-110)
       r=SURVIVED; [ $ec -eq 1 ] && r=KILLED; [ $ec -eq 2 ] && r=INFRA
       echo "$name $c $r $sig"
